@@ -118,8 +118,12 @@ pub fn gen_string<T: Display>(tag_name: &str, value: &T) -> String {
 }
 
 /// A CDATA section cannot contain its own end marker, so it needs to be split into two sections.
+/// XML parsers turn every literal carriage return into a line feed, so a carriage return
+/// is written as character reference between two sections to read it back unchanged.
 pub fn cdata_escape(value: &str) -> String {
-    value.replace("]]>", "]]]]><![CDATA[>")
+    value
+        .replace("]]>", "]]]]><![CDATA[>")
+        .replace('\r', "]]>&#13;<![CDATA[")
 }
 
 pub fn gen_float<T: Display>(tag_name: &str, value: T) -> String {
